@@ -35,7 +35,7 @@ func init() {
 		}
 		for i := 0; i < nprog; i++ {
 			cfg := WorldCfg{Dir: allDirs[rng.Intn(len(allDirs))], CapFrames: []int{0, 0, 1, 4}[rng.Intn(4)]}
-			out = append(out, Case{Family: "fcprogress", Seed: rng.Int63(), Cfg: cfg, P: map[string]int{"resp": i % 2}})
+			out = append(out, Case{Family: "fcprogress", Seed: rng.Int63(), Cfg: cfg, P: map[string]int{"resp": i % 2, "cstall": (i / 2) % 2}})
 		}
 		return out
 	}
@@ -432,6 +432,24 @@ func famFCProgress(w *World, c *Case, rng *rand.Rand) {
 	}
 	// a live bystander that must keep completing round trips while the flow stream is stalled
 	w.Env.StartRPC(context.Background(), w.Ch, spec)
+	// optionally a second stream whose sender parks on a window its peer never reads and whose caller
+	// gives up while it is parked: the parked Send must return, and nothing else may be held up
+	var cancelStall context.CancelFunc
+	if c.p("cstall", 0) == 1 && w.Cfg.RevisionOne() {
+		var sctx context.Context
+		sctx, cancelStall = context.WithCancel(context.Background())
+		st := &RPCSpec{ID: "stall"}
+		if respDir {
+			st.Method = "ServerStream"
+			st.Client = []Op{{K: "open"}, {K: "send", N: 1}, {K: "close"}, {K: "sync", Name: "never"}, {K: "recvall"}}
+			st.Handler = []Op{{K: "recv"}, {K: "send", N: 40000}, {K: "send", N: 40000}, {K: "send", N: 40000}, {K: "ret"}}
+		} else {
+			st.Method = "ClientStream"
+			st.Client = []Op{{K: "open"}, {K: "send", N: 40000}, {K: "send", N: 40000}, {K: "send", N: 40000}, {K: "close"}, {K: "recvall"}}
+			st.Handler = []Op{{K: "sync", Name: "never"}, {K: "recvall"}, {K: "send", N: 3}, {K: "ret"}}
+		}
+		w.Env.StartRPC(sctx, w.Ch, st)
+	}
 	w.Advance(time.Millisecond)
 	senderSide, readerSide := "client", "handler"
 	if respDir {
@@ -488,6 +506,22 @@ func famFCProgress(w *World, c *Case, rng *rand.Rand) {
 		} else if sendOpen {
 			w.Stat("progress_blocked_points", 1)
 		}
+		if i == 2 && cancelStall != nil {
+			parked := false
+			for _, r := range w.Env.Log.OpenOps() {
+				parked = parked || (r.RPC == "stall" && r.Side == senderSide && r.K == "send")
+			}
+			cancelStall()
+			w.Advance(10 * time.Millisecond)
+			if parked {
+				w.Stat("progress_parked_sender_cancelled", 1)
+			}
+			for _, r := range w.Env.Log.OpenOps() {
+				if r.RPC == "stall" && r.K == "send" {
+					w.Violate("C05", "parked-send-not-released-by-cancellation", "the %s's Send on a stream whose window is exhausted is still blocked after the RPC was cancelled (%s)", r.Side, w.Cfg)
+				}
+			}
+		}
 		if i < len(sizes) {
 			w.Env.Signal(fmt.Sprintf("step%d", i))
 			// a bystander round trip must complete while the flow stream may be stalled
@@ -502,6 +536,9 @@ func famFCProgress(w *World, c *Case, rng *rand.Rand) {
 				}
 			}
 		}
+	}
+	if cancelStall != nil {
+		w.Env.Signal("never")
 	}
 	w.Advance(time.Second)
 	for _, r := range w.Env.Log.OpenOps() {
